@@ -239,7 +239,8 @@ PROPS = {
     "C09": dict(
         assumptions=["partial: txt and md of the list report (with/without exposure) and of the diff report. The reference encoder (harness) is written from the layout of the two formats, reads the relation through the public accessors "
                      "and renders a connection with ConnectionSet.String (a different routine than the formatters' ConnStrFromConnProperties)",
-                     "not claimed: json, csv (reflection / bufio byte buffers cannot carry symbolic text), dot (graph layout), ingress-controller lines in the diff formats; 'parsing back' is replaced by equality with the reference encoding, which is stronger for the formats covered"],
+                     "dot of the plain list report (nodes grouped by namespace, external nodes, one labelled edge per entry) against a reference written from the layout of the format; representative-peer selectors are rendered by the reference itself, not by the formatter's helper",
+                     "not claimed: json, csv (reflection / bufio byte buffers cannot carry symbolic text), dot of the exposure and diff reports; 'parsing back' is replaced by equality with the reference encoding, which is stronger for the formats covered"],
         groups=[
             dict(pkg=CONNLIST, harness="harness/connlist", shared="harness/shared",
                  quick=ev("^ZZ_C09_", "the C08 world (3-5 workloads, 2-4 policies, optional ANPs / ingress objects, IP ranges) with every relative order of the symbolic ports (multi-range and multi-protocol port sets), exposure on/off; txt and md",
